@@ -24,6 +24,7 @@ Bind(e) ==
   /\ st' = [s \in Streams |-> Rec(e.st.st[s])]
   /\ cursors' = [s \in Streams |-> e.st.cursors[s]]
   /\ members' = ToSet(e.st.members)
+  /\ sessions' = ToSet(e.st.sessions) /\ enforcer' = e.st.enforcer
   /\ obs' = [a |-> e.obs.a, res |-> e.obs.res]
 
 CallOf(e) == [m |-> e.args.call.m, c |-> e.args.call.c, s |-> e.args.call.s, resume |-> e.args.call.resume,
@@ -35,6 +36,7 @@ TraceInit ==
   /\ st = [s \in Streams |-> Rec(e.st.st[s])]
   /\ cursors = [s \in Streams |-> e.st.cursors[s]]
   /\ members = ToSet(e.st.members)
+  /\ sessions = ToSet(e.st.sessions) /\ enforcer = e.st.enforcer
   /\ obs = [a |-> "Open", res |-> "Ok"]
   /\ l = 2
 
@@ -43,7 +45,7 @@ TraceNext ==
   /\ l' = l + 1
   /\ LET e == Trace[l] IN
      /\ Bind(e)
-     /\ CASE e.a = "Open" -> Chk(policy' = policyFile', "I", e, "loaded")
+     /\ CASE e.a = "Open" -> Chk(policy' = policyFile' /\ (~enforcer' => policy' = {}), "I", e, "loaded")
           [] e.a = "Call" ->
                /\ Chk(obs'.res # "Crash", "P", e, "C15_NoCrash")
                /\ Chk(P_Call(CallOf(e)), "P", e, "C15_DeniedNoEffect")
